@@ -61,8 +61,9 @@ def rows(quick, fault, drop):
               ("w-flush-first", "lzma2", 2, ["f", "F", "X"], {}, "tour"),
               ("w-flush-only", "lzip", 2, ["f", "X"], {}, "tour"),
               # one write() call that starts in the middle of a unit and spans several unit boundaries
-              ("w-merged-lzip", "lzip", 2, ["P", "P", "F", "F", "F", "X"], dict(extra=dict(merge=True)), "rand"),
-              ("w-merged-lzma2", "lzma2", 2, ["P", "P", "F", "F", "F", "X"], dict(extra=dict(merge=True)), "rand"),
+              # (the script must keep its iteration structure under merging: one P, then full iterations)
+              ("w-merged-lzip", "lzip", 2, ["P", "F", "F", "F", "X"], dict(extra=dict(merge=True)), "rand"),
+              ("w-merged-lzma2", "lzma2", 2, ["P", "F", "F", "F", "X"], dict(extra=dict(merge=True)), "rand"),
               ("w-midflush", "lzma2", 2, ["F", "P", "f", "F", "F", "X"], dict(extra=dict(weight=4)), "rand"),
               ("w-midflush-lzip-3w", "lzip", 3, ["F", "P", "f", "F", "X"], {}, "rand")]
         if not quick:
@@ -88,7 +89,7 @@ def merge_calls(cs):
     F / P iterations for the model, and call boundaries inside it are not runtime operations."""
     out = []
     for c in cs:
-        if c["op"] == "write" and len(out) >= 2 and out[-1]["op"] == "write":
+        if c["op"] == "write" and len(out) >= 1 and out[-1]["op"] == "write" and out[-1].get("merged", len(out) >= 2):
             out[-1] = {"op": "write", "n": out[-1]["n"] + c["n"]}
         else:
             out.append(dict(c))
